@@ -214,12 +214,125 @@ def gen_wsum_grid(tape):
     c = dict(a) if tape.chance(1, 2) else relayout(tape, a)
     for g in (b, c):
         g.pop("cast", None)
-    return {"engine": "G", "family": "G", "a": a, "b": b, "c": c, "ws_grid": tape.choice([None, None, "a", "b", "c"]),
-            "cstep": tape.choice([1, 2, 3]), "n": tape.rng_int(2, 5), "cons_grid": tape.chance(3, 4),
-            "listing": tape.shuffle([0, 1, 2, 3])}
+    sc = {"engine": "G", "family": "G", "a": a, "b": b, "c": c, "ws_grid": tape.choice([None, None, "a", "b", "c"]),
+          "cstep": tape.choice([1, 2, 3]), "n": tape.rng_int(2, 5), "cons_grid": tape.chance(3, 4),
+          # value and/or weight reach the merger through a pull-based relay that takes its metadata from its input
+          # (the merger then learns that input's grid late, in the very connect call that completes it)
+          "relay": tape.weighted([(None, 3), ("value", 1), ("weight", 1), ("both", 2)])}
+    if a["type"] == "uniform" and tape.chance(1, 4):
+        # the weight field on ANOTHER geometry of the same shape (other spacing): nothing to merge cell by cell - the
+        # merger has to refuse whatever the order of the components
+        sc["b"] = dict(a, spacing=[x * 2 for x in a["spacing"]])
+        sc["b_other_geometry"] = True
+        sc["ws_grid"] = None
+    sc["listing"] = tape.shuffle(list(range(6)))
+    if tape.chance(1, 3):
+        sc["pairs2"] = True
+        sc["relay"] = tape.chance(2, 3)
+        if not sc.get("b_other_geometry"):
+            sc["b"] = dict(sc["a"])
+    return sc
+
+
+def run_wsum_pairs(sc):
+    """two value/weight pairs: pair A directly from one generator, pair B from another generator - directly or through
+    ONE pull-based relay that passes both on and takes its metadata from its inputs; pair B on the same grid or on
+    another geometry of the same shape (then the merger has to refuse, whatever the listing order)"""
+    import finam as fm
+    from datetime import timedelta
+    from finam.components import CallbackGenerator, DebugConsumer, WeightedSum
+    from finam.errors import FinamMetaDataError
+    from ..grids import make_grid, MGrid
+    viol, log = [], []
+
+    def v(oracle, kind, msg):
+        viol.append({"oracle": oracle, "kind": kind, "msg": msg + f"; scenario {sc}", "comp": ""})
+
+    ga, gb = make_grid(sc["a"]), make_grid(sc["b"])
+    shape_a, shape_b = MGrid(sc["a"]).data_shape(), MGrid(sc["b"]).data_shape()
+
+    def gen(grid, shape, val, wgt, step, name):
+        return CallbackGenerator({"Value": (lambda t: np.full(shape, val + tick(t)), fm.Info(time=None, grid=grid, units="m")),
+                                  "Weight": (lambda t: np.full(shape, wgt), fm.Info(time=None, grid=grid, units=""))},
+                                 dt(0), timedelta(hours=step)).with_name(name)
+    gen_a = gen(ga, shape_a, 1.0, 0.25, 1, "gen_a")
+    gen_b = gen(gb, shape_b, 2.0, 0.75, sc["cstep"], "gen_b")
+
+    class Relay(fm.Component):
+        def _initialize(self):
+            from finam.tools.connect_helper import FromInput
+            rules = {}
+            for name in ("Value", "Weight"):
+                self.inputs.add(name=name, time=None, grid=None, units=None)
+                self.outputs.add(fm.CallbackOutput(callback=lambda caller, t: self.inputs[caller.name].pull_data(t).copy(), name=name))
+                rules[name] = [FromInput(name)]
+            self.create_connector(out_info_rules=rules)
+
+        def _connect(self, start_time):
+            self.try_connect(start_time)
+
+        def _validate(self):
+            pass
+
+        def _update(self):
+            pass
+
+        def _finalize(self):
+            pass
+    ws = WeightedSum(inputs=["A", "B"]).with_name("ws")
+    got = []
+    cons = DebugConsumer({"i": fm.Info(time=None, grid=None, units=None)}, start=dt(0), step=timedelta(hours=sc["cstep"]),
+                         callbacks={"i": lambda n, d, t: got.append((tick(t), np.array(d.magnitude)))}).with_name("cons")
+    comps = [gen_a, gen_b, ws, cons]
+    relay = None
+    if sc.get("relay"):
+        relay = Relay().with_name("relay")
+        comps.append(relay)
+    order = [i for i in sc["listing"] if i < len(comps)]
+    composition = fm.Composition([comps[i] for i in order], print_log=False, log_level=50)
+    gen_a.outputs["Value"] >> ws.inputs["A"]
+    gen_a.outputs["Weight"] >> ws.inputs["A_weight"]
+    if relay is not None:
+        gen_b.outputs["Value"] >> relay.inputs["Value"]
+        gen_b.outputs["Weight"] >> relay.inputs["Weight"]
+        relay.outputs["Value"] >> ws.inputs["B"]
+        relay.outputs["Weight"] >> ws.inputs["B_weight"]
+    else:
+        gen_b.outputs["Value"] >> ws.inputs["B"]
+        gen_b.outputs["Weight"] >> ws.inputs["B_weight"]
+    ws.outputs["WeightedSum"] >> cons.inputs["i"]
+    status = "ok"
+    try:
+        composition.run(start_time=dt(0), end_time=dt(sc["n"] * sc["cstep"]))
+    except FinamMetaDataError as e:
+        status = "refused"
+        log.append(("refused", str(e)[:60]))
+    except Exception as e:      # noqa: BLE001
+        status = type(e).__name__
+        v("weighted-sum", type(e).__name__, f"composition with a two-pair WeightedSum raised {type(e).__name__}: {str(e)[:300]}")
+    if status == "ok" and sc.get("b_other_geometry"):
+        v("weighted-sum", "merged-other-geometry", "pair B lives on another geometry (other spacing), but the merger accepted it and "
+          f"delivered {len(got)} 'sums'")
+    elif status == "refused" and not sc.get("b_other_geometry"):
+        v("weighted-sum", "refused-same-grid", "all four inputs are on the same grid, but the merger refused them")
+    elif status == "ok":
+        for (t, arr) in got:
+            want = (1.0 + t) * 0.25 + (2.0 + t) * 0.75       # consumer and generator B step together
+            log.append((t, float(arr.reshape(-1)[0])))
+            if arr.shape != (1,) + tuple(shape_a) or not np.allclose(arr, want, rtol=1e-12):
+                v("weighted-sum", "value", f"at {t}: got {arr.reshape(-1)[:3]}, sum of value x weight is {want}")
+                break
+        if len(got) < sc["n"]:
+            v("weighted-sum", "records", f"consumer saw {len(got)} records for {sc['n']} steps")
+    return {"violations": viol, "digest": digest_of(log + [status]), "probes": {"wsum_pairs_runs": 1, "wsum_pairs_" + status: 1},
+            "faults": {}, "nontrivial": status in ("ok", "refused"), "sig": digest_of([status, bool(sc.get("relay")), bool(sc.get("b_other_geometry"))]),
+            "state_sigs": [], "sim_hours": sc["n"] * sc["cstep"], "cls": "G2:" + status,
+            "outcome": {"family": "G2", "status": status, "records": len(got)}}
 
 
 def run_wsum_grid(sc):
+    if sc.get("pairs2"):
+        return run_wsum_pairs(sc)
     import finam as fm
     from datetime import timedelta
     from finam.components import CallbackGenerator, DebugConsumer, WeightedSum
@@ -243,9 +356,48 @@ def run_wsum_grid(sc):
                          step=timedelta(hours=sc["cstep"]),
                          callbacks={"i": lambda n, d, t: got.append((tick(t), np.array(d.magnitude), str(d.units)))})
     comps = [val.with_name("val"), wgt.with_name("wgt"), ws.with_name("ws"), cons.with_name("cons")]
-    composition = fm.Composition([comps[i] for i in sc["listing"]], print_log=False, log_level=50)
-    val.outputs["o"] >> ws.inputs["A"]
-    wgt.outputs["o"] >> ws.inputs["A_weight"]
+
+    class Relay(fm.Component):
+        def _initialize(self):
+            self.inputs.add(name="In", time=None, grid=None, units=None)
+            self.outputs.add(fm.CallbackOutput(callback=lambda caller, t: self.inputs["In"].pull_data(t)
+                                               if self.status in (fm.ComponentStatus.VALIDATED, fm.ComponentStatus.UPDATED,
+                                                                  fm.ComponentStatus.CONNECTED) else None, name="Out"))
+            from finam.tools.connect_helper import FromInput
+            self.create_connector(out_info_rules={"Out": [FromInput("In")]})
+
+        def _connect(self, start_time):
+            self.try_connect(start_time)
+
+        def _validate(self):
+            pass
+
+        def _update(self):
+            pass
+
+        def _finalize(self):
+            pass
+    vsrc, wsrc = val.outputs, wgt.outputs
+    vname = wname = "o"
+    rv = rw = None
+    if sc.get("relay") in ("value", "both"):
+        rv = Relay().with_name("rv")
+        comps.append(rv)
+    if sc.get("relay") in ("weight", "both"):
+        rw = Relay().with_name("rw")
+        comps.append(rw)
+    order = [i for i in sc["listing"] if i < len(comps)]
+    composition = fm.Composition([comps[i] for i in order], print_log=False, log_level=50)
+    if rv is not None:
+        val.outputs["o"] >> rv.inputs["In"]
+        rv.outputs["Out"] >> ws.inputs["A"]
+    else:
+        val.outputs["o"] >> ws.inputs["A"]
+    if rw is not None:
+        wgt.outputs["o"] >> rw.inputs["In"]
+        rw.outputs["Out"] >> ws.inputs["A_weight"]
+    else:
+        wgt.outputs["o"] >> ws.inputs["A_weight"]
     ws.outputs["WeightedSum"] >> cons.inputs["i"]
     status = "ok"
     try:
@@ -257,7 +409,10 @@ def run_wsum_grid(sc):
     except Exception as e:      # noqa: BLE001
         status = type(e).__name__
         v("weighted-sum", type(e).__name__, f"composition with a gridded WeightedSum raised {type(e).__name__}: {str(e)[:300]}")
-    if status == "ok":
+    if status == "ok" and sc.get("b_other_geometry"):
+        v("weighted-sum", "merged-other-geometry", "value and weight fields live on different geometries (other spacing), "
+          f"but the merger accepted them and delivered {len(got)} 'sums'")
+    elif status == "ok":
         # where do the delivered cells lie?  consumer with a grid of its own: its layout; otherwise the layout the
         # merger passes on (its own grid, else the common grid of its inputs - only defined when they are equal)
         if sc["cons_grid"]:
